@@ -92,6 +92,9 @@ def run_c07(script, rng, summary):
         return {"what": f"the two optimisers disagree: {a['value']} vs {b['value']}", "runs": [a, b]}
     if a.get("result") is False and a.get("base_status") == "sat":
         return {"what": "incremental optimiser reports no solution on a satisfiable problem", "runs": [a]}
+    v = search_residue(script, summary)
+    if v:
+        return v
     v = worst_first_probe(script, real, rng, summary, "run_c07")
     if v:
         return v
@@ -106,6 +109,41 @@ def run_c07(script, rng, summary):
         return {"what": f"max_iter={k}: returned schedule violates the problem's assertions", "runs": [c]}
     if a.get("result") and c.get("result") is False and c.get("base_status") == "sat" and k >= 1:
         return {"what": f"max_iter={k}: no schedule returned although the first check is satisfiable", "runs": [a, c]}
+    return None
+
+
+def search_residue(script, summary):
+    """after solve() returns, the incremental optimiser must have removed every bound it pushed: the solver object's own
+    assertions admit every schedule of the problem (a leftover bound silently excludes schedules from every later call)"""
+    real = pslib.Real()
+    real.run(script)
+    if real.problem is None or real.problem.horizon is None or len(real.problem.objectives) != 1:
+        return None
+    with smrun.silent(), no_stderr():
+        s = ps.SchedulingSolver(problem=real.problem, max_time=10)
+        s.initialize()
+        base = list(s._solver.assertions())
+        t0 = time.time()
+        try:
+            sol = s.solve()
+        except Exception:  # noqa: BLE001
+            return None
+    if not sol or time.time() - t0 > 5:
+        return None
+    own = list(s._solver.assertions())
+    count(summary, "run_c07_search_residue_checked")
+    if len(own) == len(base):
+        return None
+    chk = z3.Solver()
+    chk.set("timeout", 10000)
+    chk.add(base)
+    chk.add(z3.Not(z3.And(own)))
+    if chk.check() == z3.sat:
+        m = chk.model()
+        lost = {n: (smrun.value_of(m, t._start), smrun.value_of(m, t._end)) for n, t in real.tasks.items()}
+        extra = [str(a)[:120] for a in own[len(base):]][:3]
+        return {"what": "after solve() the solver object still carries search bounds of the optimiser: a valid schedule of "
+                        "the problem is excluded from every later call", "leftover_assertions": extra, "excluded_schedule": lost}
     return None
 
 
@@ -490,7 +528,10 @@ def toggle_sequence(script, real0, rng, summary):
     if len(real0.problem.objectives) > 1 or f42_region(script):
         return None
     base_cfg = rng.choice([{}, {}, {"optimizer": "optimize"}]) if real0.problem.objectives else {}
-    toggle = rng.choice([{"parallel": True}, {"parallel": True}, {"random_values": True}, {"verbosity": 1}])
+    toggles = [{"parallel": True}, {"parallel": True}, {"random_values": True}, {"verbosity": 1}]
+    if in_lia_fragment(script):
+        toggles += [{"logics": "QF_LIA"}, {"logics": "QF_UFLIA"}, {"logics": "QF_LIA"}]
+    toggle = rng.choice(toggles)
     outs = []
     for cfg in (dict(base_cfg), dict(base_cfg, **toggle)):
         real = pslib.Real()
